@@ -797,3 +797,65 @@ func (ex *Exec) sentinelErr0(g *ssa.Global) bool {
 	}
 	return false
 }
+
+// initGlobal: a package-level variable stored exactly once (in the package initialiser) from a call of a module
+// function with constant arguments, and never stored or address-taken elsewhere, is evaluated by interpreting that call.
+func (ex *Exec) initGlobal(st *State, g *ssa.Global) (Val, bool) {
+	if g.Pkg == nil || !strings.HasPrefix(g.Pkg.Pkg.Path(), modPath) || ex.inInitGlobal {
+		return nil, false
+	}
+	var theCall *ssa.Call
+	n := 0
+	for fn := range ex.P.All {
+		if !InModule(fn) {
+			continue
+		}
+		for _, b := range fn.Blocks {
+			for _, in := range b.Instrs {
+				switch x := in.(type) {
+				case *ssa.Store:
+					if x.Addr == g {
+						n++
+						if fn.Name() != "init" {
+							return nil, false
+						}
+						theCall, _ = x.Val.(*ssa.Call)
+					}
+				default:
+					// address escaping (passed to a call / stored) would allow writes: only loads are allowed
+					for _, op := range in.Operands(nil) {
+						if *op == ssa.Value(g) {
+							if l, ok := in.(*ssa.UnOp); !ok || l.Op != token.MUL {
+								if _, isStore := in.(*ssa.Store); !isStore {
+									return nil, false
+								}
+							}
+						}
+					}
+				}
+			}
+		}
+	}
+	if n != 1 || theCall == nil {
+		return nil, false
+	}
+	callee := theCall.Common().StaticCallee()
+	if callee == nil || !InModule(callee) {
+		return nil, false
+	}
+	var args []Val
+	for _, a := range theCall.Common().Args {
+		cst, ok := a.(*ssa.Const)
+		if !ok {
+			return nil, false
+		}
+		args = append(args, ex.constVal(cst))
+	}
+	ex.inInitGlobal = true
+	defer func() { ex.inInitGlobal = false }()
+	outs := ex.Call(st, callee, args, nil)
+	if len(outs) != 1 || outs[0].Panic || len(outs[0].Ret) != 1 || outs[0].St != st {
+		return nil, false
+	}
+	return outs[0].Ret[0], true
+}
